@@ -7,6 +7,7 @@ import (
 	"bytes"
 	"fmt"
 	"math/rand/v2"
+	"os"
 	"sort"
 	"strconv"
 	"strings"
@@ -51,9 +52,37 @@ func splitKey(k string) (string, *pb.Receiver) {
 }
 
 type world struct {
-	t0   time.Time
-	logs [2]*nflog.Log
-	bc   [2][][]byte // captured broadcasts
+	t0    time.Time
+	logs  [2]*nflog.Log
+	bc    [2][][]byte // captured broadcasts
+	dir   string      // scratch directory of the case (snapshot files)
+	maint time.Duration
+	stopc [2]chan struct{}
+	done  [2]chan struct{}
+}
+
+// maintPeriod never ties with an op instant (multiples of 0.3 s) within a case: k·2.03 s = m·0.3 s only for k = 30.
+const maintPeriod = 2030 * time.Millisecond
+
+func (w *world) snapf(i int) string { return fmt.Sprintf("%s/nflog-%d", w.dir, i) }
+
+// startMaintenance runs the REAL Log.Maintenance loop (GC + snapshot to file every period, final snapshot on stop).
+func (w *world) startMaintenance(i int) {
+	w.stopc[i] = make(chan struct{})
+	w.done[i] = make(chan struct{})
+	l, stop, done := w.logs[i], w.stopc[i], w.done[i]
+	go func() {
+		defer close(done)
+		l.Maintenance(w.maint, w.snapf(i), stop, nil)
+	}()
+}
+
+func (w *world) stopMaintenance(i int) {
+	if w.stopc[i] != nil {
+		close(w.stopc[i])
+		<-w.done[i]
+		w.stopc[i] = nil
+	}
 }
 
 func (w *world) abs(off int64) time.Time { return w.t0.Add(time.Duration(off)) }
@@ -215,6 +244,21 @@ func (w *world) exec(line string, retention time.Duration) string {
 		return "edited " + w.dump(i)
 	case "reload":
 		i, _ := strconv.Atoi(t[1])
+		if w.maint > 0 {
+			// restart through the real persistence path: stop the maintenance loop (it writes the shutdown
+			// snapshot), then start a new Log from the snapshot file
+			w.sleepTo(hx.Atoi64(t[2]))
+			w.stopMaintenance(i)
+			o := nflog.Options{Retention: retention, Metrics: prometheus.NewRegistry(), SnapshotFile: w.snapf(i)}
+			l, err := nflog.New(o)
+			if err != nil {
+				return "error-loading-own-snapshot"
+			}
+			l.SetBroadcast(func(b []byte) { w.bc[i] = append(w.bc[i], b) })
+			w.logs[i] = l
+			w.startMaintenance(i)
+			return w.dump(i)
+		}
 		var buf bytes.Buffer
 		if _, err := w.logs[i].Snapshot(&buf); err != nil {
 			panic(err)
@@ -256,6 +300,9 @@ func (g *gen) fresh(retention int64, conv bool) entry {
 		ts = 0
 	}
 	exp := ts + int64(g.r.IntN(8))*grid
+	if retention > 50*grid && g.r.IntN(2) == 0 {
+		exp = ts + retention
+	}
 	if g.r.IntN(4) == 0 {
 		exp = g.now + int64(g.r.IntN(3)-1)*grid // around `now`: the refusal boundary
 	}
@@ -342,6 +389,9 @@ func runCase(t *testing.T, tr *hx.Trace, id int, r *rand.Rand, script []string) 
 				if f == "conv=1" {
 					conv = true
 				}
+				if strings.HasPrefix(f, "maint=") {
+					w.maint = time.Duration(hx.Atoi64(f[len("maint="):]))
+				}
 			}
 		} else {
 			retention = int64(r.IntN(6)) * grid
@@ -353,11 +403,31 @@ func runCase(t *testing.T, tr *hx.Trace, id int, r *rand.Rand, script []string) 
 			if conv {
 				c = 1
 			}
-			header = fmt.Sprintf("case %d retention=%d conv=%d", id, retention, c)
+			if !conv && r.IntN(2) == 0 {
+				w.maint = maintPeriod
+				if r.IntN(2) == 0 {
+					// long-lived entries: snapshots are rewritten although GC removes nothing and the
+					// number of entries stays the same (an entry replaced by a newer one)
+					retention = 100 * grid
+				}
+			}
+			header = fmt.Sprintf("case %d retention=%d conv=%d maint=%d", id, retention, c, int64(w.maint))
 		}
 		tr.Linef("%s", header)
 		w.newLog(0, time.Duration(retention), nil)
 		w.newLog(1, time.Duration(retention), nil)
+		if w.maint > 0 {
+			dir, err := os.MkdirTemp("", "verif-nflog-")
+			if err != nil {
+				panic(err)
+			}
+			w.dir = dir
+			defer os.RemoveAll(dir)
+			w.startMaintenance(0)
+			w.startMaintenance(1)
+			defer w.stopMaintenance(1)
+			defer w.stopMaintenance(0)
+		}
 		do := func(line string) {
 			tr.Linef("%s -> %s", line, w.exec(line, time.Duration(retention)))
 		}
@@ -385,6 +455,9 @@ func runCase(t *testing.T, tr *hx.Trace, id int, r *rand.Rand, script []string) 
 					d = fmt.Sprintf("d%d", r.IntN(100))
 				}
 				expiry := int64(r.IntN(7)) * grid
+				if retention > 50*grid && r.IntN(2) == 0 {
+					expiry = 0 // the entry lives for the whole retention
+				}
 				if conv {
 					if g.usedTS[fmt.Sprintf("%s@%d", k, g.now)] {
 						continue
@@ -406,7 +479,7 @@ func runCase(t *testing.T, tr *hx.Trace, id int, r *rand.Rand, script []string) 
 			case x < 19:
 				do(fmt.Sprintf("storemut %d %d %s %s", i, g.now, hx.Pick(r, keys), hx.Pick(r, []string{"m1", "m2", "del"})))
 			default:
-				do(fmt.Sprintf("reload %d", i))
+				do(fmt.Sprintf("reload %d %d", i, g.now))
 			}
 		}
 		if conv {
